@@ -125,6 +125,7 @@ func childMain(args []string) {
 	os.MkdirAll(*work, 0o755)
 	c.openMarker(filepath.Join(*work, "marker"))
 	c.violF, _ = os.OpenFile(filepath.Join(*work, "viol.jsonl"), os.O_CREATE|os.O_WRONLY|os.O_TRUNC, 0o644)
+	c.selfWatch()
 	if *replay != "" {
 		c.Replay = true
 		raw, err := os.ReadFile(*replay)
@@ -389,6 +390,12 @@ func (d *driver) mergeViolFile(dir string) {
 	}
 }
 
+// selfExamined: the child in dir ended itself after finding a call into the library blocked for ever.
+func selfExamined(dir string) bool {
+	b, _ := os.ReadFile(filepath.Join(dir, "viol.jsonl"))
+	return strings.Contains(string(b), `"key":"nonreturn:blocked-forever`)
+}
+
 // confirmCase re-runs one case alone in a fresh child and classifies the outcome.
 func (d *driver) confirmCase(shardDir string, g uint64, wasTimeout bool) {
 	dir := filepath.Join(shardDir, fmt.Sprintf("only-%d", g))
@@ -400,6 +407,11 @@ func (d *driver) confirmCase(shardDir string, g uint64, wasTimeout bool) {
 	if err == nil && !to {
 		// did not reproduce alone
 		d.merge(dir)
+		if selfExamined(shardDir) {
+			// the child examined itself and ended on purpose: the call that never returns needs
+			// what was executed before it on the same objects, and is already recorded
+			return
+		}
 		d.mu.Lock()
 		d.agg.Incon = append(d.agg.Incon, fmt.Sprintf("child died/timed out at case %d but the case alone completed", g))
 		d.mu.Unlock()
@@ -451,6 +463,9 @@ func (d *driver) runShard(i, n int) {
 			continue
 		}
 		d.confirmCase(dir, g, to)
+		if selfExamined(dir) {
+			return // the objects of this shard's workload are wedged: every further attempt would end the same way
+		}
 		if to {
 			d.mu.Lock()
 			d.agg.Incon = append(d.agg.Incon, fmt.Sprintf("shard %d hit the watchdog at case %d", i, g))
